@@ -1,5 +1,6 @@
 import N0Verif.Proofs.Tlv
 import N0Verif.Proofs.Fwf
+import N0Verif.Proofs.TlvGenEq
 /-!
 # C16 — positional record codecs (TLV, fixed-width) round-trip, refuse, and terminate
 
@@ -213,6 +214,40 @@ theorem C16_tlv_badpad_cex :
   revert this
   decide
 
+/-! ## the definitions regenerated from the Python source of `parse_tlv` equal the hand-written model
+
+`Gen/TlvPy.lean` is rewritten by `harness/translate_py_tlv.py` on every run; these theorems are re-checked against
+the new text (field widths are natural numbers, as in the model). -/
+
+/-- **generated loop body = model step**: one iteration of the translated `while` body yields the triple of
+`Tlv.step` and continues at its `next` offset (or raises the same exception). -/
+theorem C16_generated_step_eq (s : Str) (tl ll off : Nat) :
+    Gen.TlvPy.ParseTlv.step s tl ll ⟨off⟩ = (Tlv.step pyInt s tl ll off).map TlvGenEq.viewStep :=
+  TlvGenEq.step_eq s tl ll off
+
+/-- **generated loop test** -/
+theorem C16_generated_cond_eq (s : Str) (tl ll : Int) (off : Nat) :
+    Gen.TlvPy.ParseTlv.cond s tl ll ⟨off⟩ = decide (off < s.length) := TlvGenEq.cond_eq s tl ll off
+
+/-- **generated generator = model**, for every fuel: the yielded triples are the views of the model's triplets and
+the iteration ends the same way (normally / with the same exception / out of fuel). -/
+theorem C16_generated_parse_eq (s : Str) (tl ll fuel : Nat) :
+    Gen.TlvPy.parseTlv s tl ll fuel = TlvGenEq.viewRes (parseTlvFuel pyInt s tl ll fuel) :=
+  TlvGenEq.parseTlv_eq s tl ll fuel
+
+/-- **C16 (termination) for the translated code**: with fuel `|s| + 1` the translated generator ends normally or
+with `ValueError` — never out of fuel — and yields at most `|s|` triples. -/
+theorem C16_tlv_terminates_generated (s : Str) (tl ll : Nat) :
+    let r := Gen.TlvPy.parseTlv s tl ll (s.length + 1)
+    (r.2 = none ∨ r.2 = some .ValueError) ∧ r.1.length ≤ s.length := by
+  intro r
+  have h : r = TlvGenEq.viewRes (parseTlv pyInt s tl ll) := TlvGenEq.parseTlv_eq s tl ll _
+  have h1 := (C16_tlv_tiles pyInt C16_pyint_rejects_empty s tl ll).1
+  have h2 := (C16_tlv_terminates pyInt C16_pyint_rejects_empty s tl ll).2.2
+  rw [h]
+  refine ⟨?_, by simpa [TlvGenEq.viewRes] using h2⟩
+  rcases h1 with h1 | h1 <;> simp [TlvGenEq.viewRes, TlvGenEq.statusOpt, h1]
+
 /-! Non-vacuity -/
 example : pyInt [] = none := by decide
 example : pyInt " +1_0\t".toList = some 10 := by decide
@@ -385,5 +420,9 @@ example : genRow [("id".toList, .int 5)] exLayout ".".toList = .ok "0005....".to
 
 example : parseRow "-007.abc".toList (exLayout.map (readBack true)) true
     = .ok (.parsed [("id".toList, some "-007".toList), ("nm".toList, some "abc".toList)]) := by decide
+
+example : Gen.TlvPy.parseTlv "A 001xBB011hello world".toList 2 3 23
+    = ([("A ".toList, 1, "x".toList), ("BB".toList, 11, "hello world".toList)], none) := by decide +kernel
+example : (Gen.TlvPy.parseTlv "AA-05".toList 2 3 6).2 = some .ValueError := by decide +kernel
 
 end N0.C16
